@@ -5,8 +5,8 @@ import json, subprocess, sys, os
 CLAIMED = {
  # id: (design_ref, level text, level note, technique)
  "C18": ("DESIGN.md 5/C18",
-   "Bounded symbolic execution of the real pkg/time functions (CompareAscending, cutPeriod, cut CompareTo, PeriodsIntersect/Connected) over full-width 64/32-bit timestamp fields: the solver shows every assertion for all values, or returns a counterexample that is replayed natively.",
-   "Trusted: go/ssa, the symgo interpreter (validated per run by native replay of sampled paths), z3. Bounds: periods have start<=end; nanos normalised.",
+   "Bounded symbolic execution of the real pkg/time functions (CompareAscending, cutPeriod, cut CompareTo, PeriodsIntersect/Connected) over full-width 64/32-bit timestamp fields; segmentpb ActiveAt/MagnitudeAt/Duration/Cut/Shift/Max/Sum on lists of <=3 (thorough 4) segments with symbolic durations and integer-valued magnitudes (Shift 2 (3), Sum of 2 (3) lists) against pointwise reference semantics (magnitude at every instant, support, translation, arguments unmodified); modepb MagnitudeAt/Shift/Cut with start times (1 (2) segments): the solver shows every assertion for all values, or returns a counterexample that is replayed natively.",
+   "Trusted: go/ssa, the symgo interpreter (validated per run by native replay of sampled paths), z3, ghost nanoseconds for durationpb/timestamppb, integer-valued floats of magnitude <= 2^16 for magnitudes. Bounds: periods have start<=end; nanos normalised; instants within +-2^62 ns; mode-level Sum not encoded.",
    "SSA symbolic execution + SMT (z3), native replay of counterexamples"),
 }
 
